@@ -108,9 +108,13 @@ def write_table_crate(dirp, name, lays, pairs, walk_pairs):
 /// Build a real (zeroed, heap-allocated) array and walk the element addresses through the slice view.
 fn walk<T, N: ArrayLength>(name: &str, bad: &mut usize) {
     let n = N::USIZE;
-    let b: Box<core::mem::MaybeUninit<GenericArray<T, N>>> = Box::new_zeroed();
+    // the array sits inside a larger heap block after a non-zero-sized field, so that even an array of zero-sized
+    // elements has a real (non-dangling) address
+    #[repr(C)]
+    struct Holder<A> { pad: [u64; 3], arr: A, tail: u8 }
+    let b: Box<core::mem::MaybeUninit<Holder<GenericArray<T, N>>>> = Box::new_zeroed();
     // only addresses and the length are inspected: the elements themselves are never read
-    let arr: &GenericArray<T, N> = unsafe { &*(b.as_ptr()) };
+    let arr: &GenericArray<T, N> = unsafe { &(*b.as_ptr()).arr };
     let base = arr as *const _ as usize;
     let s: &[T] = arr.as_slice();
     if s.len() != n || s.as_ptr() as usize != base {
